@@ -70,7 +70,8 @@ PROFILES = {
     "C01": {},
     "C02": {"put": 40, "reupload": 8, "proppatch": 8, "restart": 5, "grammar": 0.4, "external": 0.08, "multiget": 12, "get": 14, "cond": 0.5},
     "C03": {"cond": 0.85, "get": 12, "put": 40, "delete": 16},
-    "C06": {"put": 45, "delete": 14, "restart": 6, "post": 8, "uidheavy": True, "uidquery": 8},
+    "C06": {"put": 45, "delete": 14, "restart": 6, "post": 8, "uidheavy": True, "uidquery": 8, "untyped": 0.4,
+            "retype": 0.25, "proppatch": 8},
     "C07": {"delete": 18, "put": 34, "delcoll": 3, "mk": 5, "reupload": 6},
     "C08": {"proppatch": 14, "delete": 14, "reupload": 8, "restart": 5, "retype": 0.2},
     "C09": {"drain": 3, "proppatch": 12, "lock": 6, "reupload": 8, "delete": 9, "untyped": 0.45, "len": 36, "put": 40,
